@@ -630,7 +630,27 @@ fn sc_c10(seed: u64, thorough: bool) -> Vec<Scenario> {
             steps.push(Step::Frame(fl.seg(1, ck.wrapping_add(1), F_PSH | F_ACK, &m)));
         }
     }
-    // every first byte for every other protocol's canonical request with one byte changed at 0
+    // the datagram form of a call sent over TCP (it completes RPC:UDP at byte 24): first byte sweep
+    for b in 0..=255u8 {
+        let mut m = udp_bytes.clone();
+        m[0] = b;
+        sport += 1;
+        let fl = Flow::v6(sport, 2049);
+        let ck = fl.cookie(&key);
+        steps.push(Step::Frame(fl.seg(0, 0, F_SYN, &[])));
+        steps.push(Step::Frame(fl.seg(1, ck.wrapping_add(1), F_PSH | F_ACK, &m)));
+    }
+    // RFC 5389 binding requests with every attribute-area size 0..=300 step 4 (length high byte 00 / 01)
+    for n in (0..=300usize).step_by(4) {
+        let attrs: Vec<(u16, Vec<u8>)> = if n == 0 { Vec::new() } else { vec![(0x8022, vec![0x20; n - 4])] };
+        let m = stun::build(1, &stun::gen_id(&mut rng, true), &attrs);
+        steps.push(Step::Frame(Flow::v4(3000 + n as u16, 3478).udp(&m)));
+        sport += 1;
+        let fl = Flow::v4(sport, 3478);
+        let ck = fl.cookie(&key);
+        steps.push(Step::Frame(fl.seg(0, 0, F_SYN, &[])));
+        steps.push(Step::Frame(fl.seg(1, ck.wrapping_add(1), F_PSH | F_ACK, &m)));
+    }
     vec![Scenario {
         name: "rpc-wildcard-bytes".into(),
         cfg: c,
